@@ -97,8 +97,10 @@ type Model struct {
 	Touched []string
 	// Soft is set by a Step whose effect the specification does not fully determine: the caller
 	// should adopt the server's state for Touched keys after validating it against SoftCheck.
-	Soft bool
+	Soft      bool
 	softLPush *softLPush
+	// SoftCheck, when set by a Soft step, validates the adopted state of a touched key.
+	SoftCheck func(key string, got KeyState) (string, bool)
 }
 
 // New returns an empty model.
